@@ -156,11 +156,12 @@ def show(v) -> str:
 
 
 class Summary:
-    __slots__ = ("ret", "reached", "raises", "normal", "branches", "ret_consts", "ret_nonconst")
+    __slots__ = ("ret", "reached", "raises", "normal", "branches", "ret_consts", "ret_nonconst", "ret_elem_consts")
 
     def __init__(self):
         self.ret_consts: Set = set()  # constant values returned in this context (ints / None)
         self.ret_nonconst = False  # some return value is not a known constant
+        self.ret_elem_consts: Dict[int, Set] = {}  # tuple returns: element index -> constants seen there ("?" = not constant)
         self.branches: Set[Tuple[int, bool]] = set()  # feasible (if-stmt, outcome) pairs
         self.ret: FrozenSet = BOT
         self.reached: Set[int] = set()  # id(stmt) of statements reached
@@ -549,6 +550,20 @@ class Frame:
                 elif not self.sm.ret_nonconst:
                     self.sm.ret_nonconst = True
                     self.eng.changed = True
+                # a tuple result with a constant flag among its elements (`return u, v, True`)
+                if isinstance(s.value, ast.Tuple):
+                    for i, x in enumerate(s.value.elts):
+                        cx = (x.value,) if isinstance(x, ast.Constant) and isinstance(x.value, bool) else self.const_eval(x, env)
+                        val = cx[0] if cx is not None and (cx[0] is None or isinstance(cx[0], (int, bool))) else "?"
+                        cur = self.sm.ret_elem_consts.setdefault(i, set())
+                        if val not in cur:
+                            cur.add(val)
+                            self.eng.changed = True
+                elif s.value is not None:
+                    cur = self.sm.ret_elem_consts.setdefault(-1, set())
+                    if "?" not in cur:
+                        cur.add("?")  # some return is not a tuple display: no element constants
+                        self.eng.changed = True
             if (v or s.value is None) and not self.sm.normal:
                 # a `return f(...)` whose callee never returns (raises on every path / diverges) is not a normal exit
                 self.sm.normal = True
@@ -563,6 +578,8 @@ class Frame:
             return None
         if isinstance(s, ast.Assign):
             v = self.ev(s.value, env)
+            if not v and isinstance(s.value, ast.Call) and self.eng.call_targets.get((self.fi.qual, id(s.value))):
+                return None  # x = f(...) whose callee never returns in this context (it raises on every path): the path ends here
             env = env.copy()
             for t in s.targets:
                 self.assign(t, v, env, s.value)
@@ -581,7 +598,10 @@ class Frame:
             self.assign(s.target, v, env, s.value)
             return env
         if isinstance(s, ast.Expr):
-            self.ev(s.value, env, stmt_env=env)
+            v0 = self.ev(s.value, env, stmt_env=env)
+            if not v0 and isinstance(s.value, ast.Call) and isinstance(s.value.func, ast.Name) \
+                    and self.eng.call_targets.get((self.fi.qual, id(s.value))):
+                return None  # a validating helper that raises on every path in this context
             return self._post_expr(s.value, env)
         if isinstance(s, ast.If):
             folded = self.fold(s.test, env)
@@ -755,6 +775,21 @@ class Frame:
                     self.assign(x.value, seq("list", parts[i]), env, None)
                 else:
                     self.assign(x, parts[i], env, None)
+            # u, v, flag = helper(a, b): a flag that is one constant in the context of this call
+            if isinstance(value_node, ast.Call) and isinstance(value_node.func, ast.Name) and not value_node.keywords \
+                    and not any(isinstance(a, ast.Starred) for a in value_node.args):
+                tg = self.eng.call_targets.get((self.fi.qual, id(value_node)), set())
+                if len(tg) == 1:
+                    cal = self.eng.fn_by_qual.get(next(iter(tg)))
+                    if cal is not None and cal.cls is None and not cal.is_generator:
+                        args = tuple(self.ev(a, env) for a in value_node.args)
+                        if all(len(a) == 1 for a in args):
+                            sm = self.eng.summary(cal, args)
+                            if sm is not None and -1 not in sm.ret_elem_consts:
+                                for i, x in enumerate(t.elts):
+                                    cs = sm.ret_elem_consts.get(i, set())
+                                    if isinstance(x, ast.Name) and len(cs) == 1 and "?" not in cs:
+                                        env.consts[x.id] = next(iter(cs))
             return
         if isinstance(t, ast.Attribute):
             base = self.ev(t.value, env)
@@ -861,6 +896,8 @@ class Frame:
                     return res.pop()
         if isinstance(test, ast.Constant) and isinstance(test.value, bool):
             return test.value
+        if isinstance(test, ast.Name) and isinstance(env.consts.get(test.id), bool):
+            return env.consts[test.id]
         if isinstance(test, ast.UnaryOp) and isinstance(test.op, ast.Not):
             f = self.fold(test.operand, env)
             return None if f is None else (not f)
@@ -916,8 +953,8 @@ class Frame:
     def const_eval(self, e, env: Env):
         """-> (value,) for a class-level constant read through a value whose
         type set is one class (e.g. other.class_level), or a literal."""
-        if isinstance(e, ast.Constant) and isinstance(e.value, (int, float)) and not isinstance(e.value, bool):
-            return (e.value,)
+        if isinstance(e, ast.Constant) and isinstance(e.value, (int, float)):
+            return (e.value,)  # (booleans included: a constant flag selects a branch)
         if isinstance(e, ast.Constant) and e.value is None:
             return (None,)
         if isinstance(e, ast.Name) and e.id in env.consts:
@@ -1338,6 +1375,11 @@ class Frame:
                     out |= f
                     continue
                 m = c.lookup(e.attr)
+                if m is not None and "property" in m.decorators:
+                    # a read-only property: reading the attribute calls the getter on this object
+                    self.eng.call_targets.setdefault((self.fi.qual, id(e)), set()).add(m.qual)
+                    out |= eng.call(m, (S(t),))
+                    continue
                 if m is not None:
                     out |= S(("bound", m.qual, t))
                     continue
@@ -1350,6 +1392,9 @@ class Frame:
                     out |= unknown("attr %s.%s" % (t, e.attr))
             elif isinstance(t, tuple) and t[0] == "cls":
                 c = eng.class_by_name.get(t[1])
+                if c is not None and e.attr == "__new__":
+                    out |= S(("newobj", c.name))
+                    continue
                 if c is not None:
                     m = c.lookup(e.attr)
                     if m is not None:
@@ -1392,12 +1437,20 @@ class Frame:
         d, rd = BINOPS[op]
         for a in l:
             for b in r:
+                NI = ("builtin", "NotImplemented")
                 if eng.is_class_tag(a) and eng.class_by_name[a].lookup(d) is not None:
                     self.optarget(node, eng.class_by_name[a].lookup(d))
-                    out |= eng.call(eng.class_by_name[a].lookup(d), (S(a), S(b)))
+                    r1 = eng.call(eng.class_by_name[a].lookup(d), (S(a), S(b)))
+                    if NI in r1:
+                        # the operator method declined: Python tries the reflected method of the other operand, else TypeError
+                        r1 = r1 - {NI}
+                        if eng.is_class_tag(b) and eng.class_by_name[b].lookup(rd) is not None:
+                            self.optarget(node, eng.class_by_name[b].lookup(rd))
+                            r1 |= eng.call(eng.class_by_name[b].lookup(rd), (S(b), S(a))) - {NI}
+                    out |= r1
                 elif eng.is_class_tag(b) and eng.class_by_name[b].lookup(rd) is not None:
                     self.optarget(node, eng.class_by_name[b].lookup(rd))
-                    out |= eng.call(eng.class_by_name[b].lookup(rd), (S(b), S(a)))
+                    out |= eng.call(eng.class_by_name[b].lookup(rd), (S(b), S(a))) - {NI}
                 elif a in ("num", "bool") and b in ("num", "bool"):
                     out |= NUM
                 elif a == "str" and op is ast.Mod:
@@ -1581,6 +1634,8 @@ class Frame:
                 for v in self._expand_star(pos, init, 1):
                     out |= eng.construct(c, v, kw)
                 return out
+            if kind == "newobj":
+                return S(t[1])  # cls.__new__(cls): a bare instance, its fields are stored by the code that follows
             if kind == "builtin":
                 return self.builtin(t[1], pos, kw, e, env)
             if kind == "extattr":
@@ -1611,6 +1666,17 @@ class Frame:
             return pos[0] if pos and not (isinstance(pos[0], tuple)) else unknown("deepcopy")
         if name.startswith("math."):
             return NUM
+        if name.startswith("operator."):
+            opn = name.split(".", 1)[1]
+            table = {"add": ast.Add, "sub": ast.Sub, "mul": ast.Mult, "truediv": ast.Div, "floordiv": ast.FloorDiv, "mod": ast.Mod,
+                     "pow": ast.Pow, "matmul": ast.MatMult, "or_": ast.BitOr, "and_": ast.BitAnd, "xor": ast.BitXor}
+            if opn in table and len(pos) == 2 and table[opn] in BINOPS:
+                return self.binop(table[opn], pos[0], pos[1], e)
+            if opn in ("neg", "pos", "abs") and len(pos) == 1:
+                return pos[0] if pos[0] <= NUM else unknown("operator." + opn)
+            if opn in ("eq", "ne", "lt", "le", "gt", "ge", "not_", "truth", "contains", "is_", "is_not"):
+                return BOOL
+            return unknown(name)
         if name == "itertools.chain":
             el = BOT
             for p in pos:
@@ -1743,6 +1809,9 @@ class Frame:
                 for t in args[0]:
                     if self.eng.is_class_tag(t):
                         a1 = e.args[1]
+                        if isinstance(a1, ast.Name):
+                            from .astutil import single_defs
+                            a1 = single_defs(self.fi.node, self.fi.params).get(a1.id, a1)
                         names = None
                         if isinstance(a1, ast.Constant) and isinstance(a1.value, str):
                             names = [a1.value]
